@@ -929,6 +929,7 @@ class _Squeeze(_Base):
 @rewrite("compress_between", "G")
 class _CompressBetween(_Base):
     loose = True
+    zero_ok = False
 
     @staticmethod
     def ok(sp):
@@ -973,6 +974,7 @@ class _CompressBetween(_Base):
 @rewrite("compress_all", "G")
 class _CompressAll(_Base):
     loose = True
+    zero_ok = False
 
     @staticmethod
     def draw(rng, sp):
@@ -989,6 +991,7 @@ class _CompressAll(_Base):
 @rewrite("compress_all_tree", "G")
 class _CompressAllTree(_Base):
     loose = True
+    zero_ok = False
 
     @staticmethod
     def ok(sp):
@@ -1006,6 +1009,7 @@ class _CompressAllTree(_Base):
 @rewrite("compress_all_1d", "G")
 class _CompressAll1D(_Base):
     loose = True
+    zero_ok = False
 
     @staticmethod
     def ok(sp):
@@ -1344,8 +1348,13 @@ class _FullSimplify(_Simp):
             seq = "ADCR"
         else:
             seq = "".join(letters[int(v)] for v in rng.integers(0, len(letters), size=int(rng.integers(1, 6))))
+        # sequences with both S and P can make the fixed-point loop of full_simplify run forever (finding C04-m): they
+        # are kept at a low rate and under an 8 s limit, otherwise P is replaced by L
+        if "S" in seq and "P" in seq and rng.random() > 0.02:
+            seq = seq.replace("P", "L")
         return dict(seq=seq, inplace=bool(rng.integers(0, 2)), eq=_choice(rng, [False, False, True, 1.0]),
-                    give_out=bool(rng.integers(0, 2)), split_method=_choice(rng, ["svd", "svd", "svd:eig"]))
+                    give_out=bool(rng.integers(0, 2)), split_method=_choice(rng, ["svd", "svd", "svd:eig"]),
+                    sp_loop=("S" in seq and "P" in seq))
 
     @classmethod
     def apply(cls, qtn, tn, sp, p):
@@ -1399,6 +1408,29 @@ class _CompressSimplify(_Simp):
 # ----------------------------------------------------------------------------------------------
 
 
+class _time_limit:
+    """raise TimeoutError in the (main thread of the) worker if the block runs longer than `seconds` of wall time"""
+
+    def __init__(self, seconds):
+        self.seconds = seconds
+
+    def _raise(self, signum, frame):
+        raise TimeoutError(f"no return within {self.seconds} s")
+
+    def __enter__(self):
+        import signal
+
+        self.old = signal.signal(signal.SIGALRM, self._raise)
+        signal.setitimer(signal.ITIMER_REAL, self.seconds)
+
+    def __exit__(self, *exc):
+        import signal
+
+        signal.setitimer(signal.ITIMER_REAL, 0)
+        signal.signal(signal.SIGALRM, self.old)
+        return False
+
+
 def run_step(qtn, before, name, p, dt):
     """apply rewrite `name` with parameters p to a fresh copy of `before`; -> (after Snap or None, violation or None)"""
     rw = REWRITES[name]
@@ -1408,7 +1440,12 @@ def run_step(qtn, before, name, p, dt):
     if rw.group == "X":
         g = {} if g is None else g
         tn._vf_gauges = g
-    res = rw.apply(qtn, tn, before, p)
+    limit = 8 if p.get("sp_loop") else 90
+    try:
+        with _time_limit(limit):
+            res = rw.apply(qtn, tn, before, p)
+    except TimeoutError:
+        return None, f"{name} did not return within {limit} s (a step of this size takes milliseconds): non-termination"
     if isinstance(res, str):
         return None, res
     if not isinstance(res, qtn.TensorNetwork):
@@ -1528,7 +1565,7 @@ def gauging(cx):
     _no_nested_pools()
     rng = cx.rng
     nts = [1, 2, 3, 4, 5, 6] if cx.quick else [1, 2, 3, 4, 5, 6, 7, 8]
-    reps = 8 if cx.quick else 100
+    reps = 8 if cx.quick else 80
     nsteps = 4 if cx.quick else 8
     grid = [(nt, loopy, dt, ei, r) for nt in nts for loopy in (False, True) for dt in DTYPES for ei in range(4)
             for r in range(reps)]
@@ -1563,7 +1600,7 @@ def simplification(cx):
     _no_nested_pools()
     rng = cx.rng
     nts = [1, 2, 3, 4, 5, 6] if cx.quick else [1, 2, 3, 4, 5, 6, 7]
-    reps = 10 if cx.quick else 160
+    reps = 10 if cx.quick else 120
     nsteps = 4 if cx.quick else 8
     grid = [(nt, hy, dt, ei, r) for nt in nts for hy in (False, True) for dt in DTYPES for ei in range(4)
             for r in range(reps)]
@@ -1596,7 +1633,7 @@ def external_gauges(cx):
     _no_nested_pools()
     rng = cx.rng
     nts = [2, 3, 4, 5] if cx.quick else [2, 3, 4, 5, 6]
-    reps = 5 if cx.quick else 60
+    reps = 5 if cx.quick else 50
     nsteps = 4 if cx.quick else 7
     grid = [(nt, loopy, dt, ei, r) for nt in nts for loopy in (False, True) for dt in DTYPES for ei in range(4)
             for r in range(reps)]
